@@ -326,7 +326,7 @@ def test(
             maybe_date=maybe_date,
         )
     else:
-        new_version = set_version
+        new_version = _canonical_version(raw_pattern, set_version)
 
     if new_version is None:
         _log_no_change('test', raw_pattern)
@@ -577,6 +577,23 @@ def _is_valid_version(raw_pattern: str, old_version: str, new_version: str, uniq
             return False
 
     return True
+
+
+def _canonical_version(raw_pattern: str, version_str: str) -> str:
+    """Spell a version the way its pattern renders it (1.02.4 -> 1.2.4 for MAJOR.MINOR.PATCH).
+
+    A string that does not match the pattern is returned as it is (and rejected later on).
+    """
+    is_new_pattern = "{" not in raw_pattern and "}" not in raw_pattern
+    try:
+        if is_new_pattern:
+            v2_vinfo = v2version.parse_version_info(version_str, raw_pattern)
+            return v2version.format_version(v2_vinfo, raw_pattern)
+        else:
+            v1_vinfo = v1version.parse_version_info(version_str, raw_pattern)
+            return v1version.format_version(v1_vinfo, raw_pattern)
+    except version.PatternError:
+        return version_str
 
 
 def incr_dispatch(
@@ -897,7 +914,7 @@ def update(
             maybe_date=maybe_date,
         )
     else:
-        new_version = set_version
+        new_version = _canonical_version(cfg.version_pattern, set_version)
 
     if new_version is None:
         _log_no_change('update', cfg.version_pattern)
